@@ -4,7 +4,7 @@
    rets_of / calls_of / writes_of: the entries whose logging call returned / began / that were handed to
    their writer (one label = one Write of one whole entry on the entry's writer), in schedule order. *)
 From Coq Require Import List NArith Bool.
-From TarsV Require Import Conc.Flush Conc.FlushProofs.
+From TarsV Require Import Gen.Consts Conc.Flush Conc.FlushProofs.
 Import ListNotations.
 Open Scope N_scope.
 
@@ -52,6 +52,10 @@ Proof. exact FlushProofs.flusher_not_blocked_after_request. Qed.
 Theorem C20_trace_validation_sound : forall cap ls s, run cap init ls = Some s -> accepts (visible ls) = true.
 Proof. exact FlushProofs.visible_trace_accepted. Qed.
 
+(* "within the flush timeout": the tree's queue is buffered and FlushLogger waits at least one second *)
+Theorem C20_tree_constants_in_range : 0 < c_rogger_queue_cap /\ 1000 <= c_rogger_wait_flush_timeout_ms.
+Proof. exact FlushProofs.tree_constants_in_range. Qed.
+
 Print Assumptions C20_flush_complete.
 Print Assumptions C20_written_once.
 Print Assumptions C20_no_write_after_ack.
@@ -61,3 +65,4 @@ Print Assumptions C20_write_was_logged.
 Print Assumptions C20_conservation.
 Print Assumptions C20_flusher_not_blocked_after_request.
 Print Assumptions C20_trace_validation_sound.
+Print Assumptions C20_tree_constants_in_range.
